@@ -168,6 +168,9 @@ def structure(doc_type, nmembers, commissioning="both"):
     od.add_object(C.mkvar("Name", 0x2501, 0, 0x09, "const", default="canopen device"))
     od.add_object(C.mkvar("Blob", 0x2502, 0, 0x0F, "rw", default=bytes.fromhex("0102ff")))
     od.add_object(C.mkvar("Real", 0x2503, 0, 0x08, "rw", default=2.5))
+    # every access type keyword of CiA 306 (rwr / rww: read-write, mappable only as TPDO / RPDO data)
+    for i, acc in enumerate(("rwr", "rww", "wo", "const", "ro", "rw")):
+        od.add_object(C.mkvar("Access %s" % acc, 0x2510 + i, 0, 0x06, acc, default=None if acc == "wo" else i))
     text = _export(od, doc_type, "stream")
     od2 = _import(text, doc_type)
     tag = "C14/structure/%s" % doc_type
